@@ -271,6 +271,8 @@ pub fn file_err_class(diags: &str) -> String {
         (&["too many objects or quads"], "too many objects or quads for the STD format"),
         (&["no object named"], "no object named"),
         (&["too many timelines"], "too many timelines!"),
+        (&["too many subs"], "too many subs!"),
+        (&["timeline table has no entries"], "timeline table has no entries"),
     ];
     for (needles, class) in TABLE { if needles.iter().any(|n| line.contains(n)) { return class.to_string(); } }
     crate::util::diag_class(diags)
@@ -632,17 +634,22 @@ pub fn gen_cases(rng: &mut Rng, scale: usize, for_c16: bool) -> Vec<Case> {
 }
 
 // ---------------------------------------------------------------------------------------------
-// numeric meta fields narrower than the source integer (STD, mission MSG): what is stored must be what was asked
+// numeric meta fields narrower than the source integer (STD, mission MSG, ANM entry header): a value that fits must be
+// stored as asked, a value that does not fit must be rejected with a diagnostic (repaired by a8b1720 / c69e070; a silent
+// narrowing that comes back is reported under the old signatures)
 
 const W16: &[i64] = &[0, 1, 255, 256, 65535, 65536, 65537, 70000, 2147483647];
 const W8: &[i64] = &[0, 1, 255, 256, 257, 65536];
+/// fields parsed from a signed meta integer: negative values do not fit either
+const S16: &[i64] = &[0, 1, 255, 256, 65535, 65536, 65537, 70000, 2147483647, -1, -32768];
+const S8: &[i64] = &[0, 1, 255, 256, 257, 65536, -1];
 pub const META_FIELDS: &[(Game, &str, &[i64])] = &[
-    (Game::Th08, "std.layer", W16), (Game::Th12, "std.layer", W16), (Game::Th12, "std.anm_script", W16), (Game::Th08, "std.strip_anm_script", W16), (Game::Th12, "std.instance_unknown", W16),
-    (Game::Th095, "mission.stage", W16), (Game::Th095, "mission.scene", W16), (Game::Th125, "mission.stage", W16), (Game::Th125, "mission.player", W16),
-    (Game::Th125, "mission.unknown_1", W8), (Game::Th125, "mission.unknown_2", W8),
-    // ANM entry header fields are 16 bits wide since TH07 (32 bits in EoSD)
-    (Game::Th12, "anm.rt_width", W16), (Game::Th12, "anm.rt_height", W16), (Game::Th12, "anm.rt_format", W16), (Game::Th12, "anm.offset_x", W16), (Game::Th08, "anm.offset_y", W16),
-    (Game::Th06, "anm.rt_width", W16),
+    (Game::Th08, "std.layer", S16), (Game::Th12, "std.layer", S16), (Game::Th12, "std.anm_script", S16), (Game::Th08, "std.strip_anm_script", S16), (Game::Th12, "std.instance_unknown", S16),
+    (Game::Th095, "mission.stage", S16), (Game::Th095, "mission.scene", S16), (Game::Th125, "mission.stage", S16), (Game::Th125, "mission.player", S16),
+    (Game::Th125, "mission.unknown_1", S8), (Game::Th125, "mission.unknown_2", S8),
+    // ANM entry header fields are 16 bits wide since TH11 (version 7; 32 bits and no offset_x / offset_y before)
+    (Game::Th12, "anm.rt_width", W16), (Game::Th12, "anm.rt_height", W16), (Game::Th12, "anm.rt_format", W16), (Game::Th12, "anm.offset_x", W16), (Game::Th14, "anm.offset_y", W16),
+    (Game::Th06, "anm.rt_width", W16), (Game::Th10, "anm.rt_height", W16),
 ];
 
 pub fn eval_metafield(case: &Sexp) -> Sexp {
@@ -656,7 +663,7 @@ pub fn eval_metafield(case: &Sexp) -> Sexp {
         let quad = if field == "std.strip_anm_script" { format!("strip {{anm_script: {v}, start: [0.0, 0.0, 0.0], end: [1.0, 1.0, 1.0], width: 2.0}}") } else { format!("rect {{anm_script: {}, pos: [0.0, 0.0, 0.0], size: [1.0, 1.0]}}", pick("anm_script", 3)) };
         (Format::Std, format!("meta {{ {head}, objects: {{ obj0: {{layer: {}, pos: [0.0, 0.0, 0.0], size: [1.0, 1.0, 1.0], quads: [{quad}]}} }}, instances: [obj0 {{unknown: {}, pos: [0.0, 0.0, 0.0]}}] }}\nscript main {{ }}\n", pick("layer", 2), pick("instance_unknown", 256)))
     } else if field.starts_with("anm.") {
-        let offsets = if game == Game::Th06 { String::new() } else { format!(" offset_x: {}, offset_y: {},", pick("offset_x", 0), pick("offset_y", 0)) };
+        let offsets = if game < Game::Th11 { String::new() } else { format!(" offset_x: {}, offset_y: {},", pick("offset_x", 0), pick("offset_y", 0)) };
         (Format::Anm, format!("entry {{ path: \"a.png\", has_data: false, img_width: 16, img_height: 16, img_format: 3, rt_width: {}, rt_height: {}, rt_format: {},{offsets} colorkey: 0, memory_priority: 0, low_res_scale: false, sprites: {{}} }}\nscript s {{ }}\n",
             pick("rt_width", 16), pick("rt_height", 16), pick("rt_format", 3)))
     } else if game == Game::Th095 {
@@ -665,10 +672,15 @@ pub fn eval_metafield(case: &Sexp) -> Sexp {
         (Format::Mission, format!("entry {{ stage: {}, scene: {}, player: {}, unknown_1: {}, unknown_2: {}, point_1: 1, point_2: 2, furigana: [[0, 0], [1, 2], [3, 4]], text: [\"a\", \"b\", \"c\", \"d\", \"e\", \"f\"] }}\n",
             pick("stage", 1), pick("scene", 2), pick("player", 0), pick("unknown_1", 0), pick("unknown_2", 0)))
     };
+    // the width of the field that stores the value (ANM headers before TH11 are 32 bits wide)
+    let max: i64 = if field.ends_with("unknown_1") || field.ends_with("unknown_2") { 255 } else if format == Format::Anm && game < Game::Th11 { u32::MAX as i64 } else { 65535 };
+    let fits = 0 <= v && v <= max;
     let c = tc::compile(format, game, &[], text.as_bytes());
     let bytes = match c.value {
         Some(b) => b,
-        None => return if c.has_error_diag() { Sexp::app("rejected", vec![Sexp::str(crate::util::diag_class(&c.diagnostics))]) } else { super::fail("compile-fails-without-error-diagnostic", format!("{} {game}", format.name())) },
+        None => return if !c.has_error_diag() { super::fail("compile-fails-without-error-diagnostic", format!("{} {game}", format.name())) }
+            else if fits { super::fail(format!("meta-field-rejected-although-it-fits {}", format.name()), format!("{game}: {field} = {v}: {}", crate::util::diag_class(&c.diagnostics))) }
+            else { Sexp::app("rejected", vec![Sexp::str(crate::util::diag_class(&c.diagnostics))]) },
     };
     let back = tc::with_truth(format, game, &[], |truth| tc::read_bytes(truth, format, game, &bytes));
     let stored: i64 = match back.value {
@@ -682,7 +694,7 @@ pub fn eval_metafield(case: &Sexp) -> Sexp {
         Some(Compiled::Mission(truth::MissionMsgFile::Th125(m))) => m.entries.first().map(|e| match field { "mission.stage" => e.stage as i64, "mission.scene" => e.scene as i64, "mission.player" => e.player as i64, "mission.unknown_1" => e.unknown_1 as i64, _ => e.unknown_2 as i64 }).unwrap_or(-1),
         _ => return super::fail(format!("written-file-unreadable {}", format.name()), format!("{game}: {}", file_err_class(&back.diagnostics))),
     };
-    if stored == v { Sexp::app("pass", vec![]) }
+    if stored == v && fits { Sexp::app("pass", vec![]) }
     else { super::fail(format!("meta-field-stored-different {}", format.name()), format!("{game}: source asks for {field} = {v}, the file stores {stored}; exit status 0, no diagnostic")) }
 }
 
